@@ -80,7 +80,7 @@ def model_arm(ctx):
                           'documented grammar; all vectors <= %d over the full and <= %d over the reduced (22 / 19 token) alphabets' % (nfull, nred))
     # anti-vacuity: the known hole (jq's --rawfile) is really the only reason Refines is weakened, and argerr/ok intents are reached
     for probe in (['NeverJqSpellingHole', 'NeverArgErr', 'NeverOkIntent'] if thorough else []):
-        r = ctx.tlc('CLILaws', 'probe_%s.cfg' % probe, cfg_text=laws_cfg(2, 2, 'tagged', [probe]), count=False, timeout=300)
+        r = ctx.tlc('CLILaws', 'probe_%s.cfg' % probe, cfg_text=laws_cfg(3, 1, 'tagged', [probe]), count=False, timeout=300)
         if r.violated != probe:
             if probe == 'NeverJqSpellingHole':
                 ctx.cov['as_built_rawfile_hole'] = False    # transcription accepts --rawfile (code repaired and spec updated)
